@@ -7,7 +7,7 @@ import sys
 
 from common import (Build, MachineryError, Verdict, graph_paths, make_cfg,
                     run_children, run_tlc, seed, shard, split_behaviours,
-                    tla_bool, NCPU)
+                    tla_bool, join_obs, NCPU)
 
 SB = {'SB_Diamond': {'0': [], '1': [], '2': [1], '3': [1], '4': [2, 3]},
       'SB_Chain2': {'0': [], '1': [], '2': [1]},
@@ -171,27 +171,6 @@ PLAN['C08'] = {
 }
 
 KEYS_ORDER_ABSENT = None
-
-
-def join_obs(res, every=1):
-    """edges and per-state observations are dumped separately (see
-    MC_Registry.Emit); attach each edge's successor observation."""
-    obs = {}
-    edges = []
-    for r in res.lines:
-        if r.get('kind') == 'obs':
-            obs[json.dumps(r['key'], sort_keys=True)] = r['obs']
-        else:
-            edges.append(r)
-    for i, e in enumerate(edges):
-        k = json.dumps(e['to'], sort_keys=True)
-        if k not in obs:
-            # successor beyond the depth bound: never expanded, not probed
-            e['obs'] = None
-        else:
-            e['obs'] = obs[k]
-    res.lines = edges
-    res.n_obs = len(obs)
 
 
 def flavour_of(consts):
